@@ -90,6 +90,9 @@ type Conn struct {
 	Fault   func(kind string, idx int) error // consulted before every op; non-nil error is returned by the op
 	opIdx   int
 	Peer    *Conn
+	cutAt   int64
+	cutSet  bool
+	cutFn   func()
 	WroteN  int64
 	ReadN   int64
 	OnClose func()
@@ -229,11 +232,24 @@ func (c *Conn) Write(b []byte) (int, error) {
 		c.logOp("Write", 0, err)
 		return 0, err
 	}
+	c.mu.Lock()
+	var cut func()
+	full := len(b)
+	if c.cutSet && c.WroteN+int64(len(b)) >= c.cutAt {
+		keep := c.cutAt - c.WroteN
+		if keep < 0 {
+			keep = 0
+		}
+		b = b[:keep]
+		cut = c.cutFn
+		c.cutSet = false
+	}
+	c.mu.Unlock()
 	h := c.wr
 	h.mu.Lock()
 	if h.manual {
 		h.staged = append(h.staged, b...)
-	} else {
+	} else if len(b) > 0 {
 		h.buf = append(h.buf, b...)
 		h.signal()
 	}
@@ -242,6 +258,12 @@ func (c *Conn) Write(b []byte) (int, error) {
 	c.WroteN += int64(len(b))
 	c.mu.Unlock()
 	c.logOp("Write", len(b), nil)
+	if cut != nil {
+		cut()
+		if len(b) < full {
+			return len(b), &net.OpError{Op: "write", Net: "mem", Addr: c.remote, Err: syscall.EPIPE}
+		}
+	}
 	return len(b), nil
 }
 
@@ -447,6 +469,12 @@ var ErrRefused = errors.New("connection refused")
 // Dial creates a connection whose server side (as seen by Accept) reports
 // clientAddr as RemoteAddr. It returns (client end, server end).
 func (l *Listener) Dial(clientAddr net.Addr) (*Conn, *Conn, error) {
+	return l.DialWith(clientAddr, nil)
+}
+
+// DialWith is Dial with a preparation step run on both ends before the server can accept the connection
+// (install Fault hooks, cut-offs, manual delivery).
+func (l *Listener) DialWith(clientAddr net.Addr, prep func(cl, sv *Conn)) (*Conn, *Conn, error) {
 	l.mu.Lock()
 	closed := l.closed
 	l.mu.Unlock()
@@ -454,8 +482,22 @@ func (l *Listener) Dial(clientAddr net.Addr) (*Conn, *Conn, error) {
 		return nil, nil, ErrRefused
 	}
 	cl, sv := Pair(clientAddr, l.addr)
+	if prep != nil {
+		prep(cl, sv)
+	}
 	l.ch <- sv
 	return cl, sv, nil
+}
+
+// CutAfter arranges that only the first n bytes written by c ever reach the peer; when byte n has been
+// written (or at once if n == 0 bytes are allowed and the first write happens) the connection is aborted
+// by calling abort (typically c.Close or c.Reset). Total counts bytes over all writes.
+func (c *Conn) CutAfter(n int64, abort func()) {
+	c.mu.Lock()
+	c.cutAt = n
+	c.cutSet = true
+	c.cutFn = abort
+	c.mu.Unlock()
 }
 
 // TakeAll returns (and consumes) everything currently readable on c without blocking.
